@@ -14,10 +14,12 @@ def entry_harness(chk, d, want=('E', 'R')):
     ok, log = V.cc_harness(os.path.join(V.HARNESS, 'entry.c'), h, flags=list(V.RELEASE) + ['-DVERIF_STATIC_C="%s/src/static.c"' % V.REPO])
     if not ok:
         chk.broken_tie('entry harness does not compile against the current tree', log[-1500:]); return None
-    rc, out, err = V.run([h, str(chk.seed), '1' if chk.tier == 'thorough' else '0'], timeout=(1800 if chk.tier == "thorough" else 400))
+    limit = 1800 if chk.tier == "thorough" else 180      # a normal run takes 5 - 10 s (quick)
+    rc, out, err = V.run([h, str(chk.seed), '1' if chk.tier == 'thorough' else '0'], timeout=limit)
     if rc != 0 or 'DONE' not in out:
         last = [l for l in out.splitlines() if l][-1:] or ['']
-        chk.violation('%s/entry-crash' % chk.pid, 'entry-point harness crashed (exit %d) after: %s %s' % (rc, last[0], err[-200:].replace('\n', ' ')),
+        what = 'did not finish within %d s (an entry point hangs)' % limit if rc == 124 else 'crashed (exit %d)' % rc
+        chk.violation('%s/entry-crash' % chk.pid, 'entry-point harness %s after: %s %s' % (what, last[0], err[-200:].replace('\n', ' ')),
                       {'cmd': 'harness/entry %d' % chk.seed, 'last_line': last[0]})
         return None
     rc2, out2, err2 = V.run([exe, 'entry'], input=out, timeout=900)
